@@ -870,6 +870,17 @@ fn check_credential_claims(c: &CredentialClaims, obs: &mut Obs) -> CheckResult {
           c.iat
         );
       }
+      // an issuer signed inside `vc` in object form (same id as `iss`, extra members): if such a claims set is
+      // accepted, the members that were signed must not be dropped silently
+      if c.vc_issuer == VcIssuer::SameIdObjectForm && c.iss {
+        vensure!(
+          obs,
+          got.get("issuer") == Some(&json!({"id": DID_A, "name": "Example University"})),
+          "vc-issuer-object-accepted-and-resolved-to-iss",
+          "claims {claims} were accepted but the returned issuer is {:?} instead of the signed vc.issuer object",
+          got.get("issuer")
+        );
+      }
       // ids signed only inside `vc` (no jti / sub): accepted => not dropped silently
       if !c.jti {
         let signed = match c.vc_id {
